@@ -12,10 +12,11 @@ while IFS=$'\t' read -r id prop file expr; do
   sed -i "$expr" "/repo/$file"
   if git -C /repo diff --quiet -- "$file"; then echo "$id: mutant did not apply"; missed=$((missed+1)); continue; fi
   if ! (cd /repo/lib && go build ./... >/dev/null 2>&1); then echo "$id: mutant does not compile"; git -C /repo checkout -- "$file"; missed=$((missed+1)); continue; fi
-  out=$(timeout 900 ./check "$prop" 2>&1); rc=$?
+  out=$(GOCV_SCRATCH=/tmp/gocv-selftest timeout 900 ./check "$prop" 2>&1); rc=$?
   git -C /repo checkout -- "$file"
   if [ $rc -eq 1 ] && echo "$out" | grep -q "^VIOLATION property=$prop"; then caught=$((caught+1)); echo "$id $prop caught: $(echo "$out" | grep -m1 '^VIOLATION' | sed 's/.*obligation=//' | cut -c1-110)"
   else missed=$((missed+1)); echo "$id $prop MISSED (exit $rc): $(echo "$out" | tail -1 | cut -c1-120)"; fi
 done < selftest/mutants.tsv
+rm -rf /tmp/gocv-selftest
 echo "selftest: caught=$caught missed=$missed"
 [ $missed -eq 0 ]
